@@ -291,7 +291,11 @@ func mustParseBundle(b []byte) rel.Value {
 
 func newFloatFuncAttr(name string, f func(float64) float64) rel.Attr {
 	return rel.NewNativeFunctionAttr(name, func(_ context.Context, value rel.Value) (rel.Value, error) {
-		return rel.NewNumber(f(value.(rel.Number).Float64())), nil
+		n, is := value.(rel.Number)
+		if !is {
+			return nil, fmt.Errorf("//math.%s: arg must be a number, not %s", name, rel.ValueTypeAsString(value))
+		}
+		return rel.NewNumber(f(n.Float64())), nil
 	})
 }
 
